@@ -18,6 +18,9 @@ package agent
 //        s9 the ingress peer disconnects, s10 ingress STREAM_CLOSE, s11 ingress STREAM_RESET,
 //        s12 the target closes; then the gate is released and the open goroutine runs to its end.
 //        (Exit handler and port-forward handler alike: kind tcp | forward.)
+//   s13..s15: opens that fail at the other failure exits of the handlers: all-zero ephemeral key, low-order
+//        ephemeral key (both "key exchange failed"), destination not allowed / unknown forward key
+//   s16, s17: s13 / s15 followed by an honest open on the same ids, data up, ingress CLOSE
 // Every ordered pair of scripts x every interleaving x {colliding, distinct} stream ids x topology.
 // Oracle: (always) both relay indices have the same size; (after both scripts ended and the mesh is
 // quiescent) the transit's tcp/udp/icmp relay tables are empty on both indices, the exit / forward
@@ -55,6 +58,26 @@ var c17Scripts = map[string][]string{
 	"s10": {"Oa", "C", "Ga"},
 	"s11": {"Oa", "R", "Ga"},
 	"s12": {"Oa", "T", "Ga"},
+	// opens that FAIL at one of the other failure exits of the exit / port-forward handler (s3 = the dial is refused)
+	"s13": {"Oz"}, // all-zero ephemeral public key, allowed destination with a live target: "key exchange failed"
+	"s14": {"Ol"}, // low-order ephemeral public key (u = 1: all-zero shared secret), same destination: "key exchange failed"
+	"s15": {"Ox"}, // exit handler: destination outside the exit's routes ("destination not allowed"); port-forward handler: unknown forward key
+	// a failed open followed by an honest one on the same stream id / request id, closed by the ingress
+	"s16": {"Oz", "O", "A", "C"},
+	"s17": {"Ox", "O", "A", "C"},
+}
+
+// c17OpenWith is nsEndpoint.open with a chosen ephemeral public key in the STREAM_OPEN (nil: a fresh honest one).
+func c17OpenWith(e *nsEndpoint, via int, streamID, reqID uint64, remaining []identity.AgentID, addrType uint8, addr []byte, port uint16, pub *[crypto.KeySize]byte) *nsTunnel {
+	if pub == nil {
+		return e.open(via, streamID, reqID, remaining, addrType, addr, port)
+	}
+	t := &nsTunnel{net: e.net, ep: e.node, via: via, StreamID: streamID, ReqID: reqID}
+	t.pub = *pub
+	e.tunnels[[2]uint64{uint64(via), streamID}] = t
+	open := &protocol.StreamOpen{RequestID: reqID, AddressType: addrType, Address: addr, Port: port, RemainingPath: remaining, EphemeralPubKey: *pub}
+	e.send(via, &protocol.Frame{Type: protocol.FrameStreamOpen, StreamID: streamID, Payload: open.Encode()})
+	return t
 }
 
 type c17Scenario struct {
@@ -86,6 +109,7 @@ type c17World struct {
 	gtgt  [2]*nsTarget
 	disc  [2]bool
 	pendingViol [][2]string
+	opened      []string // how each plain / failing open was answered
 	// ACK gate: the exit / forward handler's StreamWriter is wrapped (c17AckGate); an armed gate
 	// holds the return of WriteStreamOpenAck for the tunnel with request id 100+i
 	atgt       [2]*nsTarget
@@ -282,6 +306,30 @@ func (w *c17World) answers() int {
 	})
 }
 
+// lastAnswer describes the last STREAM_OPEN_ACK / STREAM_OPEN_ERR the exit agent wrote.
+func (w *c17World) lastAnswer() string {
+	out := "none"
+	for _, s := range w.nt.sentSnapshot() {
+		if s.From != w.x {
+			continue
+		}
+		f, err := protocol.Decode(s.Bytes)
+		if err != nil {
+			continue
+		}
+		switch f.Type {
+		case protocol.FrameStreamOpenAck:
+			out = "ack"
+		case protocol.FrameStreamOpenErr:
+			out = "err"
+			if er, err := protocol.DecodeStreamOpenErr(f.Payload); err == nil {
+				out = fmt.Sprintf("err=%d %s", er.ErrorCode, er.Message)
+			}
+		}
+	}
+	return out
+}
+
 func (w *c17World) openErrs() int {
 	return w.nt.countSent(w.x, func(f *protocol.Frame) bool { return f.Type == protocol.FrameStreamOpenErr })
 }
@@ -314,21 +362,35 @@ func (w *c17World) step(sc c17Scenario, i int, op string) string {
 		return ""
 	}
 	switch op {
-	case "O", "Of":
+	case "O", "Of", "Oz", "Ol", "Ox":
 		before := w.answers()
+		var pub *[crypto.KeySize]byte
+		switch op {
+		case "Oz":
+			pub = &[crypto.KeySize]byte{}
+		case "Ol":
+			pub = &[crypto.KeySize]byte{1} // u = 1, a point of small order: X25519 yields the all-zero secret
+		}
 		if sc.Kind == "tcp" {
 			ip := net.ParseIP(fmt.Sprintf("10.9.0.%d", i+1))
 			port := uint16(7001 + i)
 			if op == "Of" {
 				ip, port = net.ParseIP("10.9.0.9"), 7009
 			}
-			w.tun[i] = ep.openIP(w.via, sid, uint64(100+i), remaining, ip, port)
+			if op == "Ox" {
+				ip = net.ParseIP(fmt.Sprintf("192.0.2.%d", i+1)) // outside the exit's 10.0.0.0/8
+			}
+			w.tun[i] = c17OpenWith(ep, w.via, sid, uint64(100+i), remaining, protocol.AddrTypeIPv4, ip.To4(), port, pub)
 		} else {
 			key := fmt.Sprintf("k%d", i)
 			if op == "Of" {
 				key = "dead"
 			}
-			w.tun[i] = ep.openDomain(w.via, sid, uint64(100+i), remaining, protocol.ForwardStreamPrefix+key, 0)
+			if op == "Ox" {
+				key = fmt.Sprintf("nokey%d", i) // no such forward endpoint
+			}
+			name := protocol.ForwardStreamPrefix + key
+			w.tun[i] = c17OpenWith(ep, w.via, sid, uint64(100+i), remaining, protocol.AddrTypeDomain, append([]byte{byte(len(name))}, []byte(name)...), 0, pub)
 		}
 		w.cur[i] = w.tgt[i]
 		if !nsWait(func() bool {
@@ -337,6 +399,8 @@ func (w *c17World) step(sc c17Scenario, i int, op string) string {
 		}) {
 			return "harness: exit never answered an open"
 		}
+		// which exit of the handlers the open took (counted as an outcome, never judged)
+		w.opened = append(w.opened, op+"|"+w.lastAnswer())
 	case "Og":
 		if sc.Kind == "tcp" {
 			w.tun[i] = ep.openIP(w.via, sid, uint64(100+i), remaining, net.ParseIP(fmt.Sprintf("10.9.0.%d", 7+i)), uint16(7007+i))
@@ -562,6 +626,12 @@ func c17Run(r *vmc.Result, sc c17Scenario) {
 		}
 	}
 	r.Outcome(sc.label() + "|" + strings.Join(sc.Scripts[:], ","))
+	for _, o := range w.opened {
+		if len(o) > 34 {
+			o = o[:34]
+		}
+		r.Outcome("open|" + sc.Kind + "|" + o)
+	}
 }
 
 func c17Orders(a, b int) [][]int {
@@ -598,7 +668,7 @@ func TestVerif_C17(t *testing.T) {
 		return
 	}
 	cell := -1
-	names := []string{"s1", "s2", "s3", "s4", "s5", "s6", "s7", "s8", "s9", "s10", "s11", "s12"}
+	names := []string{"s1", "s2", "s3", "s4", "s5", "s6", "s7", "s8", "s9", "s10", "s11", "s12", "s13", "s14", "s15", "s16", "s17"}
 	for _, topo := range []string{"transit", "shared"} {
 		kinds := []string{"tcp", "forward"}
 		for _, kind := range kinds {
